@@ -19,6 +19,9 @@
     condition follows from record-level facts: the module has a range, its STACK CFI records are
     non-empty, inside the module and pairwise disjoint (`oneModOkB`), and the FIRST record of the list
     covering each lookup address is the canonical one (`gcfiSideOne`: a linear search, no range tables).
+  * `gcfiSide_world` / `walk_layout_cfi_generated_world` — the same for worlds of SEVERAL modules (`worldOkB`:
+    modules with ranges, pairwise disjoint, each symbol file as above; `gcfiSideW`: linear search through the
+    module list, then through the module's records).
   * `preScan_layout` / `walk_layout_scan_generated` (ARM64 ×2, MIPS64) / `walk_layout_scan_generated32` (x86,
     x86-64, ARM not iOS, MIPS32 with its four skipped words) — scan-only chains: junk words `< 4096` that
     are no valid instructions, within the scan windows; stacks that END with the outermost return address.
@@ -27,6 +30,7 @@ import MdProofs.C04
 import MdProofs.Lemmas.WalkGenFp
 import MdProofs.Lemmas.WalkGenCfi
 import MdProofs.Lemmas.WalkGenSide
+import MdProofs.Lemmas.WalkGenSideW
 import MdProofs.Lemmas.WalkGenScan
 import MdProofs.C04Cfi
 namespace MdModel.Walk
@@ -205,6 +209,36 @@ example : gcfiSideOne { base := 0x400000, size := 0x1000, name := "m0" }
     .amd64 0x400110 true
     [{ n := 3, saves := true, ret := 0x400220, fpv := 0 }, { n := 2, saves := false, ret := 0x400500, fpv := 0 }] = true := by
   rfl
+
+/-- **the side condition from record-level facts, worlds of several modules** (in any list order):
+    the modules have ranges and are pairwise disjoint, every symbol file's STACK CFI records are
+    non-empty, inside its module and pairwise disjoint (`worldOkB` — what `tidy_world` arranges); then
+    `gcfiSide`'s lookups are two linear searches (`gcfiSideW`: first module containing the address,
+    first record of it covering the address) -/
+theorem gcfiSide_world (w : World) (hok : worldOkB w = true) (a : Arch) (instr : Nat) (first : Bool)
+    (frames : List CfiFr) (h : gcfiSideW w a instr first frames = true) :
+    gcfiSide w a instr first frames = true :=
+  gcfiSide_of_world w hok a frames instr first h
+
+/-- `walk_layout_cfi_generated` with the side condition replaced by record-level facts -/
+theorem walk_layout_cfi_generated_world (a : Arch) (os : Os) (w : World) (base s0 tail : Nat) (frames : List CfiFr)
+    (ctx : Ctx) (heff : effArch a ctx = a)
+    (hv : ctx.valid = none) (hsp : ctx.sp = pAddr a.ptr base s0)
+    (hbase : 16 < base) (htop : base + a.ptr * (gcfiWords s0 tail frames).length ≤ a.regMax)
+    (hin : s0 < (gcfiWords s0 tail frames).length)
+    (hfp : stripOf a (mkEnv a os w (wordsMemP a.ptr base (gcfiWords s0 tail frames))).mask (ctx.raw a a.fpName) =
+      ctx.raw a a.fpName)
+    (hworld : worldOkB w = true) (hside : gcfiSideW w a ctx.ip true frames = true)
+    (hok : gcfiFramesOk a (mkEnv a os w (wordsMemP a.ptr base (gcfiWords s0 tail frames))).mask frames = true)
+    (hlr : ∀ c rest, frames = c :: rest → c.n = 0 → ctx.raw a (if a.isMips then "ra" else "lr") = c.ret)
+    (hend : tail = 0 ∨ gcfiLastFp (ctx.raw a a.fpName) frames = 0) :
+    walk (mkEnv a os w (wordsMemP a.ptr base (gcfiWords s0 tail frames)))
+        (some (wordsMemP a.ptr base (gcfiWords s0 tail frames))) ctx =
+      symbolise (mkEnv a os w (wordsMemP a.ptr base (gcfiWords s0 tail frames))) (Frame.ofCtx ctx .context) ::
+        expectedCfi (mkEnv a os w (wordsMemP a.ptr base (gcfiWords s0 tail frames))) w a (Frame.ofCtx ctx .context)
+          (gcfiChain a.ptr base s0 (ctx.raw a a.fpName) frames) :=
+  walk_layout_cfi_generated a os w base s0 tail frames ctx heff hv hsp hbase htop hin hfp
+    (gcfiSide_world w hworld a ctx.ip true frames hside) hok hlr hend
 
 theorem gscanWords_split (s0 tail : Nat) (frames : List ScFr) :
     gscanWords s0 tail frames = List.replicate s0 0 ++ (gscanBody frames ++ List.replicate tail 0) := by
